@@ -408,6 +408,7 @@ func C12(run *Run) {
 		replayStore(run)
 		return
 	}
+	concWritesProbe(run) // racing Write requests must be explainable by a serial order (ConcWriteTrace.tla)
 	r := rand.New(rand.NewSource(run.Seed))
 	var recs []*StoreRec
 	faultRuns, crashRuns, boundaries := 0, 0, map[string]int{}
